@@ -171,11 +171,12 @@ def run(ctx):
     ctx.extend(Violation.from_json(v) for v in r['viols'])
     cs = charset()
     # precedence sessions
-    kinds = [(False, ''), (True, ''), (False, cs[3] + cs[20]), (True, cs[10] + cs[79])]
-    kinds2 = [(False, ''), (True, ''), (True, cs[40] + cs[1])]
+    # genes at both ends of the alphabet: the first letter decodes to 0 / 0.0 here, values a truthiness test would lose
+    kinds = [(False, ''), (True, ''), (False, cs[3] + cs[20]), (True, cs[10] + cs[79]), (True, cs[0] + cs[0])]
+    kinds2 = [(False, ''), (True, ''), (True, cs[40] + cs[1]), (True, cs[0] + cs[79])]
     cases = []
     for fast in (False, True):
-        for explicit in (None, {'a': 42, 'b': 4.2}):
+        for explicit in (None, {'a': 42, 'b': 4.2}, {'a': 0, 'b': 0.0}):
             for k in kinds:
                 cases.append({'routes': [list(k)], 'explicit': explicit, 'fast': fast})
             for k in kinds:
